@@ -1,6 +1,8 @@
 mod common;
 mod c11;
 mod c15;
+mod world;
+mod rules;
 
 fn main() {
     let args: Vec<String> = std::env::args().collect();
@@ -18,12 +20,29 @@ fn main() {
         }
         i += 1;
     }
-    std::fs::create_dir_all(&outdir).unwrap();
+    if prop != "SHOW" { std::fs::create_dir_all(&outdir).unwrap(); }
     // panics are outcomes, not noise
-    std::panic::set_hook(Box::new(|_| {}));
+    if std::env::var("QV_DEBUG").is_err() { std::panic::set_hook(Box::new(|_| {})); }
+    if prop == "SHOW" {
+        // developer aid: qvh SHOW "<sql>" [dp|pup|plain]
+        use qrlew::relation::Variant as _;
+        let w = world::world();
+        let rel = world::to_relation(&w, &outdir).unwrap();
+        let mode = args.get(3).map(|s| s.as_str()).unwrap_or("plain");
+        match mode {
+            "dp" => { let rw = rel.rewrite_with_differential_privacy(&w.relations, None, w.privacy_unit.clone(), rules::dp_params()).unwrap();
+                      println!("{}\n{}", qrlew::ast::Query::from(rw.relation()).to_string().replace("), ", "),\n"), rw.dp_event()); }
+            "pup" => { let rw = rel.rewrite_as_privacy_unit_preserving(&w.relations, None, w.privacy_unit.clone(), rules::dp_params(), None).unwrap();
+                      println!("{}", qrlew::ast::Query::from(rw.relation()).to_string().replace("), ", "),\n")); }
+            _ => { println!("{}\n{}\nsize={}", qrlew::ast::Query::from(&rel).to_string().replace("), ", "),\n"), rel.schema(), rel.size()); }
+        }
+        return;
+    }
     let out = match prop.as_str() {
         "C11" => c11::run(&outdir, seed, thorough),
         "C15" => c15::run(&outdir, seed, thorough),
+        "C13" | "C02" => rules::run(&prop, &outdir, seed, thorough),
+        "GEN-RULES" => { if let Err(e) = rules::generate(&outdir) { eprintln!("{}", e); std::process::exit(1); } return; }
         _ => { eprintln!("unknown property {}", prop); std::process::exit(2); }
     };
     std::fs::write(format!("{}/oracle.json", outdir), serde_json::to_string_pretty(&out).unwrap()).unwrap();
